@@ -37,7 +37,10 @@
 
 // TODO: Other sizes? Does anyone need more than 5 slots?
 
+#[cfg(not(sighook_verif))]
 use std::cell::UnsafeCell;
+#[cfg(sighook_verif)]
+use signal_hook_registry::verif_shim::cell::UnsafeCell;
 #[cfg(not(sighook_verif))]
 use std::sync::atomic::{AtomicU16, Ordering};
 #[cfg(sighook_verif)]
@@ -142,7 +145,7 @@ impl<T> Channel<T> {
     pub fn send(&self, val: T) {
         if let Some(empty_idx) = dequeue(&self.empty) {
             #[cfg(sighook_verif)]
-            verif_shim::event(verif_shim::Event::CellWrite, self.storage[empty_idx as usize - 1].get() as usize, empty_idx as usize);
+            verif_shim::event(verif_shim::Event::CellWrite, &self.storage[empty_idx as usize - 1] as *const _ as usize, empty_idx as usize);
             unsafe { *self.storage[empty_idx as usize - 1].get() = Some(val) };
             enqueue(&self.full, empty_idx);
         }
@@ -154,7 +157,7 @@ impl<T> Channel<T> {
     pub fn recv(&self) -> Option<T> {
         dequeue(&self.full).map(|idx| {
             #[cfg(sighook_verif)]
-            verif_shim::event(verif_shim::Event::CellTake, self.storage[idx as usize - 1].get() as usize, idx as usize);
+            verif_shim::event(verif_shim::Event::CellTake, &self.storage[idx as usize - 1] as *const _ as usize, idx as usize);
             let result = unsafe { &mut *self.storage[idx as usize - 1].get() }
                 .take()
                 .expect("Full slot with nothing in it");
